@@ -42,7 +42,8 @@ def work(inp):
         bl = []
         for b in inp["ballots"]:
             sc = {names[c]: conv(F(*s)) for c, s in b["s"]}
-            bl.append(Ballot(scores=sc, weight=F(*b["w"])) if sc else Ballot(weight=F(*b["w"])))
+            kw = {"ranking": tuple(frozenset({names[c]}) for c in b["r"])} if b.get("r") else {}       # a ballot may also carry a ranking
+            bl.append(Ballot(scores=sc, weight=F(*b["w"]), **kw) if sc else Ballot(weight=F(*b["w"]), **kw))
         order = inp.get("cand_order") or cands
         return PreferenceProfile(ballots=tuple(bl), candidates=tuple(names[c] for c in order))
 
@@ -176,8 +177,47 @@ def corpus(tier, seed):
                     cases.append([ok, {"s": [["A", rat(half)], ["B", rat(half + F(1, 2))]], "w": [1, 1]}])
         for bl in cases:
             inputs.append({"cfg": cfg, "cands": c3, "ballots": bl, "numkind": "fraction", "seed": 0})
+    # larger shapes: 4-6 candidates, up to 7 ballots, thirds and tenths among the scores, weights up to 50 and rational, ballots that also
+    # carry a ranking (which score rules must ignore), candidates scored by nobody
+    fine = [F(0), F(1, 3), F(1, 2), F(2, 3), F(1), F(1, 10), F(3, 2), F(2), F(5, 2), F(3)]
+    for _ in range(500 if q else 9000):
+        nc = rng.randint(4, 6)
+        cs = D.ABC[:nc]
+        m = rng.randint(1, nc)
+        rule = rng.choice(["Rating", "GeneralRating", "GeneralRating", "Limited", "Cumulative", "Approval", "BlocPlurality"])
+        L = rng.choice(GRID)
+        k = rng.choice([g for g in GRID if g >= L] or [L])
+        cfg = {"Rating": dict(rule="Rating", m=m, L=rat(L), hasK=False, k=[0, 1]),
+               "GeneralRating": dict(rule="GeneralRating", m=m, L=rat(L), hasK=True, k=rat(k)),
+               "Limited": dict(rule="Limited", m=m, L=rat(F(min(m, 2))), hasK=True, k=rat(F(min(m, 2)))),
+               "Cumulative": dict(rule="Cumulative", m=m, L=[m, 1], hasK=True, k=[m, 1]),
+               "Approval": dict(rule="Approval", m=m, L=[1, 1], hasK=False, k=[0, 1]),
+               "BlocPlurality": dict(rule="BlocPlurality", m=m, L=[1, 1], hasK=False, k=[0, 1])}[rule]
+        cfg["tb"] = rng.choice(["none", "random"])
+        Lc, kc = F(*cfg["L"]), (F(*cfg["k"]) if cfg["hasK"] else None)
+        bl = []
+        for _ in range(rng.randint(2, 7)):
+            scored = [c for c in cs[:rng.randint(2, nc)] if rng.random() < 0.6]
+            vals, tot = [], F(0)
+            for c in scored:
+                v = rng.choice([x for x in fine if x <= Lc] or [F(0)])
+                if rule in ("Approval", "BlocPlurality"):
+                    v = F(1)
+                if kc is not None and tot + v > kc:
+                    v = F(0)
+                tot += v
+                vals.append([c, rat(v)])
+            b = {"s": vals, "w": rat(rng.choice([F(1), F(2), F(7), F(50), F(1, 3), F(5, 2)]))}
+            if rng.random() < 0.3:
+                b["r"] = rng.sample(cs, rng.randint(1, nc))
+            bl.append(b)
+        if rng.random() < 0.25:         # one ballot breaks one limit
+            j = rng.randrange(len(bl))
+            c = rng.choice(cs)
+            bl[j] = dict(bl[j], s=[x for x in bl[j]["s"] if x[0] != c] + [[c, rat(rng.choice([Lc + F(1, 3), Lc + 3, F(-1, 3), (kc or Lc) + 1]))]])
+        inputs.append({"cfg": cfg, "cands": cs, "ballots": bl, "numkind": rng.choice(["fraction", "fraction", "float"]), "seed": rng.randrange(10**6)})
     for inp in rng.sample(inputs, 150 if q else 2000):
-        c = D.concretisations(rng, c3, [], 1)[0]
+        c = D.concretisations(rng, inp["cands"], [], 1)[0]
         i2 = dict(inp)
         i2["names"], i2["cand_order"] = c["names"], c["cand_order"]
         inputs.append(i2)
